@@ -46,6 +46,9 @@ CLAIMED = {
     "C13": ("exploration",
             "Conservation checked at quiescent barriers of the deterministic simulator: the workloads of the other worlds (requests, responses, tunnels, access control, routing, upstream faults, hostile clients, stalled peers, shutdown) are re-run with a Prometheus registry; when all scripted clients are done, the network is drained, outstanding origin work has finished on the fake clock and idle upstream connections are closed, listener_cx_total/active, dialer_cx_total/active/errors/retries, http_requests_in_flight and http_requests_total{code,method} must equal the simulator's own ledger (listener hand-outs, open sockets, connection attempts, responses parsed by clients). A library-level sub-world closes a conntrack-wrapped connection from several goroutines at once with a slow underlying Close and checks OnClose-exactly-once and byte counters.",
             "DESIGN.md 4 C13", "deterministic simulation + conservation invariants at quiescent barriers against the simulator's ledger"),
+    "C14": ("exploration",
+            "Deterministic simulation of pac.ProxyResolverPool whose net.Resolver is Go's real stub resolver speaking DNS wire format to a scripted DNS node (generated zone; per-name latency, NXDOMAIN, SERVFAIL, silence -> 5 s resolver timeouts on the fake clock). Generated decision-tree scripts over the predefined helpers; failing evaluations (throw, non-string, non-ASCII) go through the pool first, then 2-16 evaluations run concurrently, each blocking in DNS lookups that the scheduler interleaves; then the same calls run one at a time on a fresh pool. Results carry the host, so cross-talk between evaluations is visible. Oracle: concurrent == sequential == independent Go reference evaluation of the same tree against the same zone; result lists parse into the expected entries.",
+            "DESIGN.md 4 C14", "deterministic simulation (concurrent evaluations interleaved at DNS blocking points, DNS faults) + differential check against sequential run and a Go reference evaluator"),
     "C15": ("exploration",
             "Deterministic simulation with every limit on the fake clock: listener stackings (plain, TLS, PROXY, PROXY+TLS, MITM), per-run idle / read-header / TLS-handshake / PROXY-header limits, 0-16 peers stalled at drawn points (no byte, after k bytes of a PROXY header, TLS ClientHello or request head, between requests, after a MITM'd CONNECT), peers that idle and then send a head slowly but within the limits, and origins slower than every limit. Oracle: closing time equals phase start plus the applicable limit exactly (never earlier, at most 200 ms later), slow origins never cause a close, and a well-behaved client connecting meanwhile is answered with zero simulated time elapsed - which turns 'without waiting for them' into an exact statement.",
             "DESIGN.md 4 C15", "deterministic simulation with simulated clock: exact closing-time oracle + zero-wait probe client"),
